@@ -177,6 +177,13 @@ func fForm(i, n int) (string, *openfgav1.Userset, []*openfgav1.RelationReference
 
 // fFamilyModel: type doc with relations a[,b[,c]] and the tupleset p.
 func fFamilyModel() (*openfgav1.AuthorizationModel, string) {
+	// RELNAMES=1: relation names that are prefixes of each other (and of the tupleset-free part of
+	// `doc#...` labels): code that matches labels by prefix instead of exactly confuses them
+	if zzverif.Param("RELNAMES", 0) == 1 {
+		fRelNames = []string{"v", "vi", "vie"}
+	} else {
+		fRelNames = []string{"a", "b", "c"}
+	}
 	n := zzverif.Param("R", 2)
 	parents := zzverif.Param("PARENTS", 1) // 1: p: [doc]; 2: p: [doc, org]; 3: p: [doc, doc with k, org]
 	td := &openfgav1.TypeDefinition{Type: "doc", Relations: map[string]*openfgav1.Userset{}, Metadata: &openfgav1.Metadata{Relations: map[string]*openfgav1.RelationMetadata{}}}
